@@ -272,7 +272,7 @@ def run(ctx):
                                            new_states_per_depth=r['per_level'])
         if r['frontier']:
             ctx.sample(dict(impl=impl, history=r['frontier'][len(r['frontier']) // 2]))
-        if ctx.viol:
+        if ctx.unknown_viol():
             break
     ctx.count['traces_validated_against_impl'] = ctx.count['transitions']
     ctx.assumptions += ['4 interfaces + implementedBy(A), implementedBy(B(A)), an instance Provides, a plain Declaration; base lists <= 2 (thorough 3); cycles excluded (unsupported by the library)']
